@@ -422,3 +422,183 @@ def part_handover(ctx, cfgs):
         for d in mism[:3]:
             ctx.violation("correspondence-broken", f"hand-over family: {d.get('problem')} ({d.get('function')}, {d.get('config')})", d)
     return bool(viol)
+
+
+# ------------------------------------------------------------------ getters of public variables as re-entered entry points
+# Under `#pragma nonreentrancy on` every external function -- including the synthesised getter of a public variable --
+# is lock-protected, except getters of variables that cannot change (constant, immutable) and of `reentrant(public(..))`
+# variables.  Without the pragma no getter is protected.  Family: storage class (storage / transient / immutable /
+# constant) x shape (scalar, HashMap, nested HashMap, static array, DynArray, struct member) x reentrant marker; the
+# protected function hg() WRITES every variable, then hands control to the attacker, which STATICCALLs every getter
+# and reports a bit per getter (1 = the call succeeded).  ug() (@reentrant) is the control group (lock free).
+# (name, declaration, getter signature, calldata words, protected under the pragma, needs transient storage)
+GETTERS = [
+    ("s_scalar", "public(uint256)", "s_scalar()", [], True, False),
+    ("s_map", "public(HashMap[uint256, uint256])", "s_map(uint256)", [1], True, False),
+    ("s_map2", "public(HashMap[uint256, HashMap[address, uint256]])", "s_map2(uint256,address)", [1, 2], True, False),
+    ("s_arr", "public(uint256[3])", "s_arr(uint256)", [1], True, False),
+    ("s_dyn", "public(DynArray[uint256, 4])", "s_dyn(uint256)", [0], True, False),
+    ("s_str", "public(S)", "s_str()", [], True, False),
+    ("s_re", "reentrant(public(uint256))", "s_re()", [], False, False),
+    ("t_scalar", "public(transient(uint256))", "t_scalar()", [], True, True),
+    ("t_map", "public(transient(HashMap[uint256, uint256]))", "t_map(uint256)", [1], True, True),
+    ("t_map2", "public(transient(HashMap[uint256, HashMap[address, uint256]]))", "t_map2(uint256,address)", [1, 2], True, True),
+    ("t_arr", "public(transient(uint256[3]))", "t_arr(uint256)", [1], True, True),
+    ("t_str", "public(transient(S))", "t_str()", [], True, True),
+    ("t_re", "reentrant(public(transient(uint256)))", "t_re()", [], False, True),
+    ("IMM", "public(immutable(uint256))", "IMM()", [], False, False),
+    ("CON", "public(constant(uint256)) = 7", "CON()", [], False, False),
+]
+
+G_ATTACKER = """
+victim: public(address)
+gcalls: public(DynArray[Bytes[100], 32])
+
+@external
+def set_victim(v: address):
+    self.victim = v
+
+@external
+def add_call(data: Bytes[100]):
+    self.gcalls.append(data)
+
+@external
+def gcb(p: uint256) -> uint256:
+    b: uint256 = 0
+    i: uint256 = 0
+    for data: Bytes[100] in self.gcalls:
+        ok: bool = False
+        res: Bytes[64] = b""
+        ok, res = raw_call(self.victim, data, max_outsize=64, is_static_call=True, revert_on_failure=False)
+        if ok and len(res) >= 32:
+            b |= 1 << i
+        i += 1
+    return b | (1 << 255)
+"""
+
+
+def getter_list(evm):
+    from vlib.configs import EVMS
+    transient = EVMS.index(evm) >= EVMS.index("cancun")
+    return [g for g in GETTERS if transient or not g[5]]
+
+
+def getter_victim_source(evm, pragma):
+    gs = getter_list(evm)
+    L = ["#pragma nonreentrancy on"] if pragma else []
+    L += ["struct S:", "    a: uint256", "    b: uint256", "",
+          "interface A:", "    def gcb(p: uint256) -> uint256: nonpayable", "", "att: address"]
+    for name, decl, *_ in gs:
+        if not pragma:
+            decl = {"s_re": "public(uint256)", "t_re": "public(transient(uint256))"}.get(name, decl)
+        L.append(f"{name}: {decl}")
+    L += ["", "@deploy", "def __init__(a: address):", "    self.att = a", "    IMM = 9", ""]
+    writes = {"s_scalar": "self.s_scalar = p", "s_map": "self.s_map[1] = p", "s_map2": "self.s_map2[1][convert(2, address)] = p",
+              "s_arr": "self.s_arr[1] = p", "s_dyn": "self.s_dyn = [p, p]", "s_str": "self.s_str = S(a=p, b=p)", "s_re": "self.s_re = p",
+              "t_scalar": "self.t_scalar = p", "t_map": "self.t_map[1] = p", "t_map2": "self.t_map2[1][convert(2, address)] = p",
+              "t_arr": "self.t_arr[1] = p", "t_str": "self.t_str = S(a=p, b=p)", "t_re": "self.t_re = p"}
+    body = ["    " + writes[g[0]] for g in gs if g[0] in writes] + ["    r: uint256 = extcall A(self.att).gcb(p)"]
+    after = ["    " + writes[g[0]].replace("= p", "= r & 255").replace("[p, p]", "[r & 255]").replace("S(a=p, b=p)", "S(a=r & 255, b=1)")
+             for g in gs if g[0] in writes]
+    prot = [] if pragma else ["@nonreentrant"]
+    unprot = ["@reentrant"] if pragma else []
+    L += ["@external"] + prot + ["def hg(p: uint256) -> uint256:"] + body + after + ["    return r", ""]
+    L += ["@external"] + unprot + ["def ug(p: uint256) -> uint256:"] + body + after + ["    return r", ""]
+    L += ["@external"] + prot + ["def poke():", "    self.s_scalar += 1", ""]
+    return "\n".join(L)
+
+
+def check_getters(cfg, pragma):
+    """returns (n_evaluations, violations[(name, detail)], mismatches[detail])"""
+    from vlib import configs
+    gs = getter_list(cfg.evm)
+    src = getter_victim_source(cfg.evm, pragma)
+    v = configs.compile_src(src, cfg, formats=("bytecode", "method_identifiers"))
+    a = configs.compile_src(G_ATTACKER, configs.Config(False, "gas", cfg.evm), formats=("bytecode", "method_identifiers"))
+    ch = Chain(cfg.evm)
+    enc = lambda x: bytes(12) + bytes.fromhex(x[2:])  # noqa
+    A = ch.deploy(bytes.fromhex(a["bytecode"][2:]))
+    V = ch.deploy(bytes.fromhex(v["bytecode"][2:]) + enc(A))
+    if A is None or V is None:
+        raise RuntimeError("deployment failed")
+    ami = {k: int(x, 16).to_bytes(4, "big") for k, x in a["method_identifiers"].items()}
+    vmi = {k: int(x, 16).to_bytes(4, "big") for k, x in v["method_identifiers"].items()}
+    ok = ch.call(A, ami["set_victim(address)"] + enc(V)).ok
+    datas = []
+    for name, _decl, sig, words, _prot, _tr in gs:
+        data = vmi[sig] + b"".join(w.to_bytes(32, "big") for w in words)
+        datas.append(data)
+        ok = ok and ch.call(A, ami["add_call(bytes)"] + (32).to_bytes(32, "big") + len(data).to_bytes(32, "big") + data + bytes(-len(data) % 32)).ok
+    if not ok:
+        raise RuntimeError("setup failed")
+    ch.reset_transient()
+    viol, mism = [], []
+    n = 0
+    base = {"config": cfg.name, "pragma_style": pragma, "victim_source": src, "attacker_source": G_ATTACKER,
+            "getters": [g[2] for g in gs],
+            "how": "deploy G_ATTACKER, victim(attacker); attacker.set_victim(victim); attacker.add_call(calldata of every getter in "
+                   "order); call victim.hg(5) / victim.ug(5): the return value has bit i set iff the STATICCALL of getter i from the "
+                   "callback succeeded (bit 255 = the callback ran)"}
+    for fn, held in (("hg", True), ("ug", False)):
+        r = ch.call(V, vmi[f"{fn}(uint256)"] + (5).to_bytes(32, "big"))
+        n += len(gs)
+        if not r.ok or len(r.out) != 32 or not (int.from_bytes(r.out, "big") >> 255):
+            mism.append(dict(base, function=fn, problem="the hand-over function failed / the callback did not run", observed=[r.ok, r.out.hex()[:80]]))
+            continue
+        bits = int.from_bytes(r.out, "big")
+        for i, (name, decl, sig, _w, prot, _tr) in enumerate(gs):
+            got = bool(bits >> i & 1)
+            protected = prot and pragma           # without the pragma no getter is lock-protected
+            want = not (held and protected)
+            if got == want:
+                continue
+            d = dict(base, function=fn, getter=sig, declaration=f"{name}: {decl}", succeeded=got, lock_held=held)
+            if got and not want:
+                viol.append((f"re-entry into the lock-protected getter {sig} ({decl}) succeeded while the lock was held "
+                             f"({'#pragma nonreentrancy on' if pragma else 'decorators'}, {cfg.name})", d))
+            else:
+                mism.append(dict(d, problem="a getter that is not lock-protected / lock free reverted"))
+        # every getter works after the call (lock released), also inside the same transaction
+        for (name, decl, sig, _w, _p, _t), data in zip(gs, datas):
+            r2 = ch.call(V, data, static=True)
+            n += 1
+            if not r2.ok:
+                viol.append((f"getter {sig} reverts after the outermost call returned (lock not released?) under {cfg.name}",
+                             dict(base, function=fn, getter=sig, declaration=f"{name}: {decl}")))
+        ch.reset_transient()
+    return n, viol, mism
+
+
+def getter_worker(job):
+    import warnings
+    warnings.filterwarnings("ignore")
+    cfg, pragma = job
+    try:
+        return check_getters(cfg, pragma)
+    except Exception as e:  # noqa
+        import traceback
+        return (0, [], [{"config": cfg.name, "pragma_style": pragma, "problem": f"getter family failed: {type(e).__name__}: {e}",
+                         "trace": traceback.format_exc()[-1200:]}])
+
+
+def part_getters(ctx, cfgs):
+    """returns True iff a failing input was found"""
+    from concurrent.futures import ProcessPoolExecutor
+    jobs = [(c, p) for c in cfgs for p in (True, False)]
+    with ProcessPoolExecutor(max_workers=3) as ex:
+        res = list(ex.map(getter_worker, jobs, chunksize=1))
+    viol = [v for r in res for v in r[1]]
+    mism = [m for r in res for m in r[2]]
+    ctx.corr["getter_family"] = {"evaluations": sum(r[0] for r in res), "getters": [g[2] for g in GETTERS], "jobs": len(jobs),
+                                 "violations": len(viol), "mismatches": len(mism)}
+    seen = set()
+    for name, d in viol:
+        key = f"c09:getter:{d['getter']}:{d['pragma_style']}"
+        if key in seen or len(seen) >= 4:
+            continue
+        seen.add(key)
+        ctx.violation("failing-input", name, d, key=key)
+    if not viol:
+        for d in mism[:3]:
+            ctx.violation("correspondence-broken", f"getter family: {d.get('problem')} ({d.get('getter', '-')}, {d.get('config')})", d)
+    return bool(viol)
